@@ -13,6 +13,7 @@ import labtech  # noqa
 from labtech.lab import Lab  # noqa
 
 import lv_universe as U  # noqa
+from common import storage_of
 
 
 def main():
@@ -81,7 +82,7 @@ def main():
         if lab2.is_cached(t):
             cached.append(t.label)
             try:
-                t._lt.cache.load_result_with_meta(lab2._storage, t)
+                t._lt.cache.load_result_with_meta(storage_of(lab2), t)
             except BaseException:   # noqa
                 unloadable.append(t.label)
     out['cached'] = cached
